@@ -233,18 +233,35 @@ def t04_ord(run, fx):
             run.fail(rule, "order:%s:type" % path, "the lookup accumulator of %s is %s, not BTreeMap<usize, u32>: lookups would not be applied in lookup-list order" % (path, ty), "%s:%s" % (b.file, b.line))
             continue
         run.ok(rule, "%s: accumulator is %s" % (path, ty))
-        al = aliases(b, l0)
         bad = []
-        keys_ok = True
-        for bi, t in b.calls():
-            if any(a["k"] in ("copy", "move") and a["p"]["l"] in al for a in t["args"]):
+        keys_state = [True]
+
+        def touch(fb, acc_local, depth=0):
+            """calls that receive the accumulator (or an alias): map operations, or - when the insertion loop was extracted - a private
+            helper of the module, whose parameter is then held to the same discipline"""
+            al_ = aliases(fb, acc_local)
+            for bi, t in fb.calls():
+                hit = [k for k, a in enumerate(t["args"]) if a["k"] in ("copy", "move") and a["p"]["l"] in al_]
+                if not hit:
+                    continue
                 p = t["callee"].get("path") or ""
-                if p not in MAP_OK:
-                    bad.append(p)
-                if p.endswith("::insert"):
-                    k = sym.Prov(b).op(t["args"][1])
-                    if not key_from_lookup_index(k):
-                        keys_ok = False
+                if p in MAP_OK:
+                    if p.endswith("::insert"):
+                        k = sym.Prov(fb).op(t["args"][1])
+                        if not key_from_lookup_index(k):
+                            keys_state[0] = False
+                    continue
+                hb = fx.body(p) if p.startswith("gsub::") and depth < 2 else None
+                if hb is not None and hb.kind != "Closure" and not ORDER_BREAKERS.search(p):
+                    for k in hit:
+                        touch(hb, k + 1, depth + 1)
+                    for _, t2 in hb.calls():
+                        if ORDER_BREAKERS.search(t2["callee"].get("path") or ""):
+                            bad.append(t2["callee"].get("path"))
+                    continue
+                bad.append(p)
+        touch(b, l0)
+        keys_ok = keys_state[0]
         fam = fx.family(b)
         for fb in fam:
             for bi, t in fb.calls():
